@@ -127,13 +127,15 @@ def own_templates(repo, which="resolver", tier="quick"):
     return obs
 
 
-def own_mutable_defaults(repo, tier="quick"):
+def own_mutable_defaults(repo, tier="quick", only_modules=None, floor=8):
     E = effects(repo)
     obs = []
     oid = "OWN.mutable-defaults"
     n = 0
     for fi in repo.all_functions():
-        if fi.module.name in SKIP_MODULES:
+        if only_modules is None and fi.module.name in SKIP_MODULES:
+            continue
+        if only_modules is not None and fi.module.name not in only_modules:
             continue
         for p, d in fi.defaults().items():
             mutable = isinstance(d, (ast.List, ast.Dict, ast.Set, ast.ListComp, ast.DictComp, ast.SetComp)) or \
@@ -165,6 +167,6 @@ def own_mutable_defaults(repo, tier="quick"):
             else:
                 obs.append(ob_ok(oid, fi, construct="default of %s" % p, instance=fi.qualname + ":" + p,
                                  reason="mutable default is only read (no mutating method, store, del, augmented assignment, escape)"))
-    if n < 8:
-        raise AnalysisError("mutable-default scan matched only %d parameters (floor 8)" % n)
+    if n < floor:
+        raise AnalysisError("mutable-default scan matched only %d parameters (floor %d)" % (n, floor))
     return obs
